@@ -270,8 +270,8 @@ func runC18(w *World, c *Check) {
 		c.Decide(okSet, "C18.header", FuncKey(hfa.Fn), "authorization-value", w.Pos(hfa.Fn.Pos()), "Authorization = \"Negotiate \" + base64.StdEncoding(marshalled token from InitSecContext)", fmt.Sprintf("Header.Set calls: %v", renderCalls(hfa, sets)))
 		// the mechanism is built for the SPN argument, or the one derived from the request
 		okSPN := false
-		for _, ci := range hfa.Calls(`spnego\.SPNEGOClient`) {
-			if a := hfa.CallArgs(ci); fullMatch(`φ\((spn\|types\.\(PrincipalName\)\.PrincipalNameString\(spnego\.setRequestSPN\(r\)#0\)|types\.\(PrincipalName\)\.PrincipalNameString\(spnego\.setRequestSPN\(r\)#0\)\|spn)\)`, a[1]) {
+		for _, dc := range hfa.CallsDeep(`spnego\.SPNEGOClient`) {
+			if a := dc.fa.CallArgs(dc.ci); fullMatch(`φ\((spn\|types\.\(PrincipalName\)\.PrincipalNameString\(spnego\.setRequestSPN\(r\)#0\)|types\.\(PrincipalName\)\.PrincipalNameString\(spnego\.setRequestSPN\(r\)#0\)\|spn)\)`, a[1]) {
 				okSPN = true
 			}
 		}
